@@ -368,11 +368,17 @@ func runC03(w *World) {
 			w.Violate("c03-concurrent-map-access "+key, "unsynchronised concurrent access to a Go map (fatal error in a real process): %s", r)
 		}
 	}
-	if w.Sim.MaxStepWall > 20*time.Second {
-		w.Violate("c03-cpu-wedge", "goroutine %s computed for %v of real time without reaching a scheduling point (a few such requests pin every core)", w.Sim.MaxStepName, w.Sim.MaxStepWall)
+	if w.Sim.MaxStepAlloc > 128<<20 {
+		w.Violate("c03-allocation-bomb", "goroutine %s allocated %d MiB in one go on behalf of a hostile peer (a few such requests exhaust the server's memory)", w.Sim.MaxAllocName, w.Sim.MaxStepAlloc>>20)
+	}
+	if w.Sim.MaxStepWall > 60*time.Second {
+		w.Violate("c03-cpu-wedge", "goroutine %s consumed %v of CPU time without reaching a scheduling point (a few such requests pin every core)", w.Sim.MaxStepName, w.Sim.MaxStepWall)
 	}
 	if w.Sim.MaxStepWall > time.Second {
 		w.Probe("step_over_1s_real_time")
+	}
+	if os.Getenv("VERIF_DEBUG") != "" {
+		fmt.Fprintf(os.Stderr, "max step: %v by %s\n", w.Sim.MaxStepWall, w.Sim.MaxStepName)
 	}
 	for _, l := range w.Sim.LeakedLocks {
 		w.Violate("c03-lock-leaked", "goroutine %s ended while holding a mutex", l)
